@@ -112,6 +112,7 @@ def run(ctx):
             linked = A.linked_outcomes(pkg, d if named else None)      # also creates the files that exist
             # expected external accesses, from the property text: one per linked image the converter opens, in order
             exp = []
+            reached = []      # targets of the link-only blips the conversion reaches (not those in deletions, field codes, unused alternates)
             rels = {a: b for a, b, c in pkg.rels}
             from mammoth.docx.xmlparser import XmlElement
 
@@ -120,6 +121,7 @@ def run(ctx):
                     if isinstance(x, XmlElement):
                         if x.name == "a:blip" and x.attributes.get("r:embed") is None and x.attributes.get("r:link") is not None:
                             t = rels[x.attributes["r:link"]]
+                            reached.append(t)
                             if conv != "no_open":
                                 if "://" in t:
                                     exp.append(("urllib.Request", t))
@@ -129,6 +131,10 @@ def run(ctx):
                             continue
                         elif x.name == "mc:AlternateContent":
                             walk(x.find_child_or_null("mc:Fallback").children)
+                            continue
+                        elif x.name == "w:sdt":
+                            if x.find_child_or_null("w:sdtPr").find_child("wordml:checkbox") is None:
+                                walk(x.find_child_or_null("w:sdtContent").children)
                             continue
                         walk(x.children)
             walk(pkg.body)
@@ -177,7 +183,7 @@ def run(ctx):
                     bad = "a DTD / external entity declared in the package was fetched: %s" % extra[:2]
                 else:
                     bad = "external accesses %s, expected exactly the linked images %s" % (norm[:4], exp[:4])
-            elif not named and any("://" not in t for t in pkg.linked) and conv != "no_open":
+            elif not named and any("://" not in t for t in reached) and conv != "no_open":
                 if not any("fileobj has no name" in m.message for m in res.messages):
                     bad = "a relative linked image with an anonymous input did not produce the warning"
             if bad:
